@@ -20,10 +20,13 @@ LEVEL = "model_checking"
 def run(ctx):
     quick = ctx.quick()
     # ---- (M) arithmetic fragment
-    mc = ctx.tlc("sqlrewrite", "SqlRewriteTime", "Time_MC_small.cfg" if quick else "Time_MC_large.cfg",
-                 timeout=2400, workers=4)
-    ctx.note("tlc_time", {"cfg": "Time_MC_small.cfg" if quick else "Time_MC_large.cfg", "distinct": mc.distinct,
-                          "generated": mc.generated, "depth": mc.depth, "invariant": "ClassesExact"})
+    # quick: ClassesExact is checked on the generator's points (every tick within 2 s of a bucket boundary of either
+    # grid, all cases); thorough additionally exhausts -2W..2W for every width up to one hour (Time_MC_large.cfg;
+    # Time_MC_small.cfg = widths up to 2 minutes, for manual use)
+    if not quick:
+        mc = ctx.tlc("sqlrewrite", "SqlRewriteTime", "Time_MC_large.cfg", timeout=3000, workers=6)
+        ctx.note("tlc_time", {"cfg": "Time_MC_large.cfg", "distinct": mc.distinct,
+                              "generated": mc.generated, "depth": mc.depth, "invariant": "ClassesExact"})
     gen = ctx.tlc("sqlrewrite", "SqlRewriteTime", "Time_Gen.cfg", timeout=1200, workers=4)
     if not gen.traces:
         raise InfraError("time generator emitted nothing")
@@ -36,7 +39,7 @@ def run(ctx):
     for c in need:
         if not classes.get(c):
             raise InfraError("vacuous generation: class %s has no point" % c)
-    ctx.note("tlc_time_gen", {"cfg": "Time_Gen.cfg", "distinct": gen.distinct, "points": len(gen.traces), "points_per_class": classes})
+    ctx.note("tlc_time_gen", {"cfg": "Time_Gen.cfg", "invariant": "ClassesExact", "distinct": gen.distinct, "generated": gen.generated, "points": len(gen.traces), "points_per_class": classes})
 
     # ---- (M) predicate fragment
     lcfg = "Like_Gen_small.cfg" if quick else "Like_Gen_mid.cfg"
@@ -63,7 +66,8 @@ def run(ctx):
                           "actions_fired": {k: v[0] for k, v in (lk.coverage or {}).items()}})
 
     # ---- (G) binding
-    ov = ctx.make_overlay(["sqlrewrite"])
+    # the driver binary is shared with C18, whose pruner clock comes from the -clock overlay
+    ov = ctx.make_overlay(["sqlrewrite"], extra=ctx.overlaygen(["-clock", "internal/pruning/partition_pruner.go"]))
     binp = ctx.go_build("sqlrewrite", overlay=ov)
     sp = ctx.path("c17_in.json")
     json.dump({"time": gen.traces, "like": like, "url_budget": 200 if quick else 2000, "tps": 4}, open(sp, "w"))
